@@ -1507,7 +1507,8 @@ func (t *Terminal) UpdateList(merger *Merger) {
 			// Trimmed by --tail: filter selection by index
 			filtered := make(map[int32]selectedItem)
 			minIndex := merger.minIndex
-			maxIndex := minIndex + int32(merger.Length())
+			// The range of the loaded items, not of the matches
+			maxIndex := minIndex + int32(util.Max(t.count, merger.Length()))
 			for k, v := range t.selected {
 				var included bool
 				if maxIndex > minIndex {
